@@ -275,6 +275,27 @@ func TestC17MergeLaws(t *testing.T) {
 		ia := rapid.IntRange(0, len(snaps)-1).Draw(rt, "A")
 		ib := rapid.IntRange(0, len(snaps)-1).Draw(rt, "B")
 		ic := rapid.IntRange(0, len(snaps)-1).Draw(rt, "C")
+		// three times out of four, when the history produced two snapshots that hold different incarnations of a
+		// member they share, A and B are such a pair (constructed, not filtered: every history still yields a case)
+		var disagreeing [][2]int
+		for i := range snaps {
+			for j := range snaps {
+				if i == j {
+					continue
+				}
+				pi, pj := project(snaps[i]), project(snaps[j])
+				for id, x := range pi {
+					if y, ok := pj[id]; ok && x != y {
+						disagreeing = append(disagreeing, [2]int{i, j})
+						break
+					}
+				}
+			}
+		}
+		if len(disagreeing) > 0 && rapid.IntRange(0, 3).Draw(rt, "preferDisagreement") > 0 {
+			pr := rapid.SampledFrom(disagreeing).Draw(rt, "disagreeingPair")
+			ia, ib = pr[0], pr[1]
+		}
 		A, B, C := snaps[ia], snaps[ib], snaps[ic]
 		f := &failer{rt, func() string {
 			return strings.Join(w.log, "; ") + fmt.Sprintf(" || A=%s[%s] B=%s[%s] C=%s[%s] opts=%+v", snapDesc[ia], fullString(A), snapDesc[ib], fullString(B), snapDesc[ic], fullString(C), opts)
